@@ -2,6 +2,10 @@ package props
 
 import (
 	"fmt"
+	"github.com/ipld/go-ipld-prime/traversal"
+	"strings"
+	"verif/lib/model"
+	"verif/lib/obs"
 
 	"github.com/ipld/go-ipld-prime/datamodel"
 
@@ -31,7 +35,7 @@ func (c15) Plan(tier string) fw.Plan {
 }
 
 func (c15) RunCase(c *fw.Ctx, rng *fw.RNG, batch, i int) {
-	g, root, s, sel, err := travSetup(rng, graphgen.Opts{MaxBlocks: 8, MaxDepth: 3, MaxWidth: 4, RawBlocks: true}, selgen.Opts{MaxDepth: 4})
+	g, root, s, sel, err := travSetup(rng, graphgen.Opts{MaxBlocks: 8, MaxDepth: 3, MaxWidth: 4, RawBlocks: true, NumLookalikes: true}, selgen.Opts{MaxDepth: 4})
 	if err != nil || sel == nil {
 		c.Count("selector_compile_errors", 1)
 		c.Seen(0, false)
@@ -83,6 +87,30 @@ func (c15) RunCase(c *fw.Ctx, rng *fw.RNG, batch, i int) {
 			}
 		} else if r.Err != nil {
 			fail("node-budget-spurious-error", fmt.Sprintf("node budget %d suffices for %d visits but the walk ended with %v", n, len(U), r.Err))
+		}
+	}
+	// 1b. the local walk (WalkLocal: every node of the in-memory tree, links not followed) under node budgets,
+	// against an enumeration of the tree's positions made by the harness; and a visit callback answering SkipMe,
+	// which removes exactly the subtree below that visit
+	c15Local(c, rng, g, root, fail)
+	// 1c. the transforming walk with visit-links-once: no link is loaded twice
+	{
+		lsys, _ := g.LinkSystem()
+		var run travRun
+		lsys.StorageReadOpener = wrapOpener(lsys.StorageReadOpener, &run, nil)
+		cfg := &traversal.Config{LinkSystem: lsys, LinkVisitOnlyOnce: true}
+		var terr error
+		if !c.Guard("C15:WalkTransforming", func() {
+			_, terr = traversal.Progress{Cfg: cfg}.WalkTransforming(root, sel, func(_ traversal.Progress, n datamodel.Node) (datamodel.Node, error) { return n, nil })
+		}) && terr == nil {
+			c.Count("visitonce_transform_walks", 1)
+			cnt := map[string]int{}
+			for _, l := range run.Loads {
+				cnt[l.Link]++
+				if cnt[l.Link] == 2 {
+					fail("visitonce-loads-twice:WalkTransforming", fmt.Sprintf("WalkTransforming with visit-links-once: link …%x loaded twice", tail4(l.Link)))
+				}
+			}
 		}
 	}
 	// 2. link budgets
@@ -344,4 +372,111 @@ func loadBelongsToTail(l travLoad, U []travVisit, k int) bool {
 		}
 	}
 	return false
+}
+
+// c15Local: WalkLocal against the harness's own enumeration, under every node budget, and with SkipMe from the callback.
+func c15Local(c *fw.Ctx, rng *fw.RNG, g *graphgen.Graph, root datamodel.Node, fail func(sig, detail string)) {
+	type pos struct {
+		path string
+		segs []string
+		val  model.Val
+	}
+	var want []pos
+	var enum func(v model.Val, segs []string)
+	enum = func(v model.Val, segs []string) {
+		want = append(want, pos{strings.Join(segs, "/"), segs, v})
+		switch v.K {
+		case model.KMap:
+			for _, e := range v.M {
+				enum(e.V, append(append([]string(nil), segs...), e.K))
+			}
+		case model.KList:
+			for i, x := range v.L {
+				enum(x, append(append([]string(nil), segs...), fmt.Sprint(i)))
+			}
+		}
+	}
+	enum(g.Root, nil)
+	type lv struct {
+		segs []string
+		val  model.Val
+	}
+	walk := func(budget int64, skipAt int) ([]lv, error) {
+		var out []lv
+		prog := traversal.Progress{}
+		if budget >= 0 {
+			prog.Budget = &traversal.Budget{NodeBudget: budget, LinkBudget: 1 << 30}
+		}
+		var err error
+		c.Guard("C15:WalkLocal", func() {
+			err = prog.WalkLocal(root, func(p traversal.Progress, n datamodel.Node) error {
+				out = append(out, lv{pathSegs(p.Path), obs.ReadOut(n, obs.Options{Light: true}).Val})
+				if len(out)-1 == skipAt {
+					return traversal.SkipMe{}
+				}
+				return nil
+			})
+		})
+		return out, err
+	}
+	same := func(got []lv, exp []pos) (bool, string) {
+		for i := 0; i < len(got) || i < len(exp); i++ {
+			if i >= len(got) {
+				return false, fmt.Sprintf("visit #%d <%s> missing", i, exp[i].path)
+			}
+			if i >= len(exp) {
+				return false, fmt.Sprintf("unexpected extra visit #%d <%s>", i, strings.Join(got[i].segs, "/"))
+			}
+			if strings.Join(got[i].segs, "\x00") != strings.Join(exp[i].segs, "\x00") || !model.Equal(got[i].val, exp[i].val) {
+				return false, fmt.Sprintf("visit #%d is <%s> %s, expected <%s> %s", i, strings.Join(got[i].segs, "/"), clipS(got[i].val.Dump(), 60), exp[i].path, clipS(exp[i].val.Dump(), 60))
+			}
+		}
+		return true, ""
+	}
+	full, err := walk(-1, -1)
+	c.Count("local_walks", 1)
+	if err != nil {
+		fail("local-walk-error", fmt.Sprintf("WalkLocal ended with %v", err))
+		return
+	}
+	if ok, why := same(full, want); !ok {
+		fail("local-walk-differs-from-enumeration", "WalkLocal vs the tree's positions in document order: "+why)
+		return
+	}
+	for n := 0; n <= len(want)+1; n++ {
+		if len(want) > 40 && n > 4 && n < len(want)-4 && rng.Intn(len(want)) > 12 {
+			continue
+		}
+		got, err := walk(int64(n), -1)
+		c.Count("local_budget_walks", 1)
+		exp := want
+		if n < len(want) {
+			exp = want[:n]
+		}
+		if ok, why := same(got, exp); !ok {
+			fail("node-budget-changes-visits:WalkLocal", fmt.Sprintf("WalkLocal, node budget %d: %s", n, why))
+		}
+		if n < len(want) && !isBudgetErr(err, "node") {
+			fail("node-budget-no-error:WalkLocal", fmt.Sprintf("WalkLocal, node budget %d < %d visits but the walk ended with err=%v", n, len(want), err))
+		} else if n >= len(want) && err != nil {
+			fail("node-budget-spurious-error:WalkLocal", fmt.Sprintf("WalkLocal, node budget %d suffices for %d visits but the walk ended with %v", n, len(want), err))
+		}
+	}
+	for t := 0; t < 3 && len(want) > 1; t++ {
+		k := rng.Intn(len(want))
+		got, err := walk(-1, k)
+		c.Count("local_skipme_walks", 1)
+		var exp []pos
+		for i, p := range want {
+			if i != k && len(p.segs) > len(want[k].segs) && segsPrefix(want[k].segs, p.segs) {
+				continue
+			}
+			exp = append(exp, p)
+		}
+		if err != nil {
+			fail("skipme-error:WalkLocal", fmt.Sprintf("WalkLocal with SkipMe answered at visit #%d: walk ended with %v", k, err))
+		} else if ok, why := same(got, exp); !ok {
+			fail("skipme-changes-visits:WalkLocal", fmt.Sprintf("WalkLocal with SkipMe answered at visit #%d <%s>: %s", k, want[k].path, why))
+		}
+	}
 }
